@@ -133,7 +133,7 @@ def compare_with_model(run: Run, rows):
 
 
 def check(run: Run, lean: dict) -> int:
-    n = 150 if run.tier == "quick" else 4000
+    n = run.budget(150, 4000)
     run.extra["rule"] = (
         "every tag node of every tree (incl. detached subtrees as their own tree) of forests reached by random Legal edit "
         "histories over documents with namespaces, comments, PIs and text between elements: its location_path under a random "
